@@ -236,6 +236,7 @@ class World:
         self.image_digest = None
         self.desc = None
         self.twins_orig = []
+        self.include_dir = None
 
     def close(self):
         for f in self.fonts:
@@ -365,4 +366,15 @@ def materialize(spec, mode="u2mem", order_key=None, perm_key=None, ds_names=True
             w.ds = build_designspace(spec, w.fonts, names=ds_names)
         w.ds_twin = snap_designspace(w.ds)
     w.twins_orig = list(w.twins)
+    # include() files of the feature code live in a real directory (feaLib opens them
+    # with the built-in open); in the path modes that is the UFOs' parent directory
+    inc = {} if corpus else (spec.get("include_files") or {})
+    w.include_dir = None
+    if inc:
+        if w.tmpdir is None:
+            w.tmpdir = tempfile.mkdtemp(prefix="ufo2ft-sim-", dir=scratch_root)
+        for name, text in inc.items():
+            with open(os.path.join(w.tmpdir, name), "w", encoding="utf-8") as f:
+                f.write(text)
+        w.include_dir = w.tmpdir
     return w
